@@ -891,3 +891,19 @@ package httpserver
 //@   at call mapupdate:*#1 before [the_site_joins_the_group_of_its_own_resolved_address] arg1 == addr.String() && len(arg2) == len(groups[arg1]) + 1 && arg2[len(arg2)-1] == conf && forall(k, 0, len(groups[arg1]), arg2[k] == groups[arg1][k])
 //@   at call net.ResolveTCPAddr before [resolved_from_the_sites_listen_host_and_port] arg1 == net.JoinHostPort(conf.ListenHost, conf.Addr.Port) && (conf.Addr.Port != "" || Port == "")
 //@   loop 1 invariant forall(k, 0, len(configs), configs[k] != nil)
+
+//@ unit recorder_readout frames=on props=C20 nilchecks=on verify_pure=on filter=`httpserver\.NewResponseRecorder$|httpserver\.ResponseRecorder\)\.(Size|Status)$`
+//@ // C20 "{status} and {size} are what was sent": a new recorder starts at status 200 (what net/http sends when a handler
+//@ // never calls WriteHeader) and size 0, wrapping exactly the writer it was given; Status and Size read the two counters
+//@ // that WriteHeader and Write maintain (unit recorder)
+//@ extern time.Now
+//@ func NewResponseRecorder
+//@   ensures [starts_at_200_and_zero_bytes_around_the_given_writer] result != nil && result.status == 200 && result.size == 0 && result.ResponseWriterWrapper != nil && result.ResponseWriterWrapper.ResponseWriter == w && result.Replacer == nil
+//@ func (*ResponseRecorder).Size
+//@   pure reads ResponseRecorder.size
+//@   requires r != nil
+//@   ensures result == r.size
+//@ func (*ResponseRecorder).Status
+//@   pure reads ResponseRecorder.status
+//@   requires r != nil
+//@   ensures result == r.status
